@@ -1174,7 +1174,23 @@ enum Expect {
 
 fn junk_line(rng: &mut Rng) -> Vec<u8> {
     const WORDS: &[&str] = &["stop", "debug on", "debug off", "ponderhit", "setoption name Hash value 64", "setoption name Threads value 2", "register later", "register name X code 1", "xq_zzz", "hello world", "?", "--help", "ucinewgam", "isread", "go_depth 3", "positions", "quitx", "uciok", "readyok", "bestmove e2e4", "info string hi"];
-    match rng.below(12) {
+    match rng.below(13) {
+        12 => {
+            // unknown words separated by (or ending in, or made only of) white space that is not ASCII:
+            // no-break space, ideographic space, line separator, next line, en/em spaces. None of these
+            // lines names a command, so nothing may be answered and nothing may fail
+            const SP: &[&str] = &["\u{a0}", "\u{3000}", "\u{2028}", "\u{85}", "\u{2003}", "\u{2009}", "\u{1680}", "\u{202f}"];
+            let a = *rng.pick(&["debug", "xq_zz", "setoption", "register", "ponderhit", "stop", "isread", "xq"]);
+            let sp = *rng.pick(SP);
+            match rng.below(5) {
+                0 => format!("{}{}on", a, sp),
+                1 => format!("{}{}", a, sp),
+                2 => format!("{}{}{}name X", a, sp, sp),
+                3 => format!("{} x{}y", a, sp),
+                _ => format!("{}{}", sp, sp),
+            }
+            .into_bytes()
+        }
         0 => b"".to_vec(),
         1 => b"   ".to_vec(),
         2 => b"\t \t".to_vec(),
